@@ -111,7 +111,7 @@ def run(ctx):
     ev = judge(ctx, tr, "h-sdk c42 replay", smallest)
     # 3. seeded random graphs: 2..4 tokens, 1..4 markets, costs -2..3 or absent, both orientations, k in 1..3
     tr2 = ctx.path("random.ndjson")
-    ctx.run_bin("c42", ["random", "--seed", ctx.seed, "--n", 4000 if ctx.quick else 60000, "--out", tr2])
+    ctx.run_bin("c42", ["random", "--seed", ctx.seed, "--n", 3000 if ctx.quick else 60000, "--out", tr2])
     ev2 = judge(ctx, tr2, "h-sdk c42 random", smallest)
     allev = ev + ev2
     res = [x for e in allev for x in e["res"]]
